@@ -66,7 +66,7 @@ def g_text_filter(r: random.Random, depth: int, fan: int = 4, hostile=True, dn_r
     if k == "sub":
         ini = g_value(r, hostile, allow_empty=False) if r.random() < 0.6 else None
         fin = g_value(r, hostile, allow_empty=False) if r.random() < 0.6 else None
-        anys = tuple(g_value(r, hostile, allow_empty=False) for _ in range(r.choice([0, 0, 1, 2, 3])))
+        anys = tuple(g_value(r, hostile, allow_empty=False) for _ in range(r.choice([0, 0, 1, 2, 3]) if r.random() < 0.985 else r.choice([255, 256, 257, 258, 300])))
         if ini is None and fin is None and not anys:
             anys = (g_value(r, hostile, allow_empty=False),)
         return ("sub", attr, ini, anys, fin)
@@ -240,7 +240,7 @@ class Render:
 
 # ---------------------------------------------------------------- single-character edits (C15)
 
-EDIT_CHARS = list("()&|!=~<>:*\\;. -0a\n\r\t\x00'\"$^") + ["\x7f", "é"]
+EDIT_CHARS = list("()&|!=~<>:*\\;. -0a\n\r\t\x00'\"$^_%") + ["\x7f", "é", "\u212a", "\u017f", "\u0131", "\u0130", "\u0661", "\uff21", "\x0b", "\x0c", "\x1c", "\u00a0", "\u2028"]
 
 
 def edits(sentence: str) -> t.Iterator[t.Tuple[str, str]]:
